@@ -269,3 +269,62 @@ world.prewarm(
     lambda: gate_case([True, True, False, False, False, False, False, False], "cli", False, [False] * 4),
     lambda: gate_case([False] * 8, "default", True, [True, False, True, False]),
 )
+
+
+def replay(tier, condname, cex):
+    """R2 (the harness function concretely) decides; where the scenario has a plain command-line form it is also run in a
+    real pytest process (R1: real option parsing, real terminal detection via FORCE_COLOR, real xdist) and the files on disk
+    are compared with the model - the outcome is stored with the replay."""
+    import inspect
+
+    from vlib.common import generic_replay
+
+    conds = {c.name: c for c in conditions(tier)}
+    fn = conds[condname].fn
+    out = dict(generic_replay(fn, cex))
+    try:
+        import re
+
+        src = fn.__verif_src__
+        m = re.search(r"gate_case\((.*)\)\s*$", src.strip().splitlines()[-1])
+        ba = inspect.signature(fn).bind(*cex.get("args", []), **cex.get("kwargs", {}))
+        env_ = dict(ba.arguments)
+        captured = {}
+
+        def probe(bits, source, tty, answers, ci_idx=0, pycharm=False, xd=0, xfail=False, pyproject="none", shortcut=None):
+            captured.update(dict(bits=list(bits), source=source, tty=tty, answers=list(answers), ci_idx=ci_idx, pycharm=pycharm, xd=xd, xfail=xfail, pyproject=pyproject, shortcut=shortcut))
+            return True
+
+        eval("gate_case(" + m.group(1) + ")", {"gate_case": probe}, env_)
+        a = captured
+        if a["xd"] == 3 or a["xfail"] not in (0, False):
+            out["r1"] = "not expressible on the command line (xdist worker config / xfail marks are set by the stub request)"
+            return out
+        flagstr = ",".join(n for n, b in zip(NAMES, a["bits"]) if b)
+        args, env, stdin = [], {}, b""
+        if a["shortcut"]:
+            args += list(a["shortcut"])
+        elif a["source"] == "cli":
+            args.append(f"--inline-snapshot={flagstr}")
+        elif a["source"] == "env":
+            env["INLINE_SNAPSHOT_DEFAULT_FLAGS"] = flagstr
+        if a["ci_idx"]:
+            env[CI_VARS[a["ci_idx"] - 1]] = "1"
+        if a["pycharm"]:
+            env["PYCHARM_HOSTED"] = "1"
+        if a["xd"] == 2:
+            args += ["-n", "2"]
+        elif a["xd"] == 1:
+            args += ["-n", "0"]
+        if a["tty"]:
+            env["FORCE_COLOR"] = "true"
+        stdin = "".join("y\n" if x else "n\n" for x in a["answers"]).encode() + b"n\nn\nn\nn\n"
+        files = {"test_a.py": TEXT, "test_b.py": TEXT_B}
+        if PYPROJECTS[a["pyproject"]] is not None:
+            files["pyproject.toml"] = PYPROJECTS[a["pyproject"]]
+        rc, log, after, storage = world.real_pytest(files, args, env=env, stdin=stdin, storage_files={U: b"unused"})
+        out["r1"] = {"args": args, "env": env, "returncode": rc, "test_a_args": world.snapshot_arg_sources(after["test_a.py"]), "test_b_args": world.snapshot_arg_sources(after["test_b.py"]), "storage": [x[:8] + x[64:] for x in storage]}
+        out["detail"] = str(out.get("detail")) + " | R1 real pytest: " + repr(out["r1"])[:600]
+    except Exception as e:  # R1 is additional evidence only
+        out["r1_error"] = repr(e)
+    return out
